@@ -597,6 +597,12 @@ void MDSDRV_Track_Writer::event_hook()
 		rest_time = 0;
 	}
 	param = event.param;
+	// rest_time is 16 bits wide: flush before it would wrap
+	if(rest_time + off_time > 0xffff)
+	{
+		converted_events.push_back(MDSDRV_Event(MDSDRV_Event::REST, rest_time));
+		rest_time = 0;
+	}
 	rest_time += off_time;
 	switch(event.type)
 	{
